@@ -155,7 +155,7 @@ Proof. destruct a, b; cbn; intros H; try reflexivity; discriminate. Qed.
 Lemma sd_ep_eqb_eq x y : sd_ep_eqb x y = true -> x = y.
 Proof.
   unfold sd_ep_eqb. intros H. repeat (apply andb_true_iff in H; destruct H as [H ?]).
-  destruct x as [a1 a2 a3 a4 a5 a6 a7 a8 a9 a10 a11], y as [b1 b2 b3 b4 b5 b6 b7 b8 b9 b10 b11]; simpl in *.
+  destruct x as [a1 a2 a3 a4 a5 a6 a7 a8 a9 a10 a11 a12], y as [b1 b2 b3 b4 b5 b6 b7 b8 b9 b10 b11 b12]; simpl in *.
   repeat match goal with
          | h : (_ =? _) = true |- _ => apply Z.eqb_eq in h
          | h : Bool.eqb _ _ = true |- _ => apply Bool.eqb_prop in h
